@@ -164,7 +164,9 @@ class DiffEqSolver:
         # quadrature
         n = degree//2+1
 
-        self._mVals = np.fft.fftfreq(nTheta, 1/nTheta)
+        # The mode numbers must be exact integers (nTheta*(1/nTheta) is not
+        # always exactly 1, e.g. for nTheta=49)
+        self._mVals = np.rint(np.fft.fftfreq(nTheta, 1/nTheta))
 
         if rspline.cubic_uniform:
             knots = make_knots(rspline.breaks, 3, False)
